@@ -446,6 +446,27 @@ theorem bagSorted_iff_pairwise (l : List (BKey × Val)) :
         simp only [bagSorted, Bool.and_eq_true]
         exact ⟨h'.1 b (List.mem_cons_self ..), ih.mpr h'.2⟩
 
+/-- strictly sorted Bag entries have pairwise distinct keys (`BKey.lt` is irreflexive) -/
+theorem bagSorted_nodup_keys {l : List (BKey × Val)} (h : bagSorted l = true) :
+    (l.map (·.1)).Nodup := by
+  rw [List.Nodup, List.pairwise_map]
+  exact ((bagSorted_iff_pairwise l).mp h).imp (fun hlt => BKey.ne_of_lt hlt)
+
+/-- the leaf invariant of a Bag gives strictly sorted entries, whatever `entries` is -/
+theorem bagSorted_of_leafGoodCore {q : Qty} {r : BagRange} {e : Val} {m : List (BKey × Val)}
+    (h : leafGoodCore (.bag q r) e (.bag m) = true) : bagSorted m = true := by
+  simp only [leafGoodCore, Bool.and_eq_true] at h
+  cases e with
+  | fin x =>
+    simp only [Bool.and_eq_true] at h
+    by_cases hx : x = 0
+    · simp only [hx, if_true, St.zero, decide_eq_true_eq] at h
+      have hm : m = [] := by injection (of_decide_eq_true h.2.2)
+      rw [hm]; rfl
+    · simp only [hx, if_false] at h
+      exact h.2.2
+  | _ => simp at h
+
 theorem bagMerge_append (a l1 l2 : List (BKey × Val)) :
     bagMerge a (l1 ++ l2) = bagMerge (bagMerge a l1) l2 := by
   simp [bagMerge, List.foldl_append]
